@@ -134,3 +134,33 @@ def c10(ctx, rep):
     for name, mod in (("T-STORE(fee)", "fee_field"), ("T-STORE(addr)", "addr_fields"), ("T-STORE(kind)", "txn_types")):
         rep.rule(name, "key family <-> context accessor pairing in _store_results")
         cmptables._store_family_rule(ctx, rep, name, mod)
+
+
+from .rules import detectors  # noqa: E402
+
+
+@prop("C01", "Decides the detector-side structural clauses of C01: (T-PRED) the dangerous-value predicate of each of the nine "
+             "path-reporting detectors as a complete truth table over the context atoms it reads; (T-VALIDATED) validated_in_block "
+             "is a for-all over possible own indices (240 rows); (R-GATE) guard table of search_paths: report gate, the four prunes, "
+             "complete successor coverage, retsub continuation at the top frame's return point, persistent arguments; (T-SEARCH) "
+             "the path search on abstract CFG neighbourhoods. The analysis-side clauses are decided under C03/C06-C10. "
+             "Not decided: soundness of the per-block contexts for every program (the fixpoint).")
+def c01(ctx, rep):
+    detectors.rule_checks_field(ctx, rep)
+    detectors.rule_validated_in_block(ctx, rep)
+    detectors.rule_search_paths_exits(ctx, rep)
+    detectors.rule_search_paths_rows(ctx, rep)
+    generic_tables.rule_eqn(ctx, rep)
+    generic_tables.rule_edge(ctx, rep)
+    generic_tables.rule_block(ctx, rep)
+
+
+@prop("C13", "Decides the structural clauses of C13: (T-GROUP) the group verdict function on abstract two-member groups with marker "
+             "contexts - full product of own / at-index / absolute / relative validation flags x index and offset configurations "
+             "(direction and sign), leaf-only and for-all-leaves evaluation, eligibility by detector type and transaction type; "
+             "(T-OFFSET) offset inversion; (T-VALIDATED) validated_in_block rows. Not decided: agreement with concrete group "
+             "semantics over all programs; equality with the single-contract verdict.")
+def c13(ctx, rep):
+    detectors.rule_group_verdicts(ctx, rep)
+    detectors.rule_offset_inversion(ctx, rep)
+    detectors.rule_validated_in_block(ctx, rep)
